@@ -35,6 +35,9 @@ pub struct StationObs {
     pub fraction: f64,
     pub length_along: f64,
     pub normal: Option<P>,
+    /// (point, length-along) of the stations reached by `at_index()` and `at_next_index()`
+    pub nav_index: Option<(P, f64)>,
+    pub nav_next: Option<(P, f64)>,
 }
 
 pub trait CurveLike {
@@ -61,6 +64,8 @@ fn obs2(s: &engeom::CurveStation2) -> StationObs {
         fraction: s.fraction(),
         length_along: s.length_along(),
         normal: Some([n.x, n.y, 0.0]),
+        nav_index: guarded(|| s.at_index()).ok().map(|t| ([t.point().x, t.point().y, 0.0], t.length_along())),
+        nav_next: guarded(|| s.at_next_index()).ok().map(|t| ([t.point().x, t.point().y, 0.0], t.length_along())),
     }
 }
 
@@ -74,6 +79,8 @@ fn obs3(s: &engeom::CurveStation3) -> StationObs {
         fraction: s.fraction(),
         length_along: s.length_along(),
         normal: None,
+        nav_index: guarded(|| s.at_index()).ok().map(|t| ([t.point().x, t.point().y, t.point().z], t.length_along())),
+        nav_next: None,
     }
 }
 
@@ -343,6 +350,18 @@ pub fn judge_curve(c: &dyn CurveLike, ext: f64, tol: f64, case: &dyn Fn() -> Val
             l.check("direction rule", if hit.is_some() { "vertex" } else { "edge" }, ok, case, || {
                 format!("l={:e}: direction {:?} allowed {:?}", x, s.dir, allowed)
             });
+            // stepping to the vertex the station names, and to the one after it
+            if s.index < n {
+                let at = |k: usize| (v[k.min(n - 1)], lens[k.min(n - 1)]);
+                let (pi, li) = at(s.index);
+                let ok_i = s.nav_index.map(|(p, ll)| dist(&p, &pi) <= 1e-9 * ext && (ll - li).abs() <= 1e-9 * (1.0 + big_l)).unwrap_or(false);
+                l.check("stepping back to the station's vertex reaches that vertex", "", ok_i, case, || format!("l={:e}: index {} -> {:?}, vertex {:?} at {}", x, s.index, s.nav_index, pi, li));
+                if is_2d {
+                    let (pn, ln) = at(s.index + 1);
+                    let ok_n = s.nav_next.map(|(p, ll)| dist(&p, &pn) <= 1e-9 * ext && (ll - ln).abs() <= 1e-9 * (1.0 + big_l)).unwrap_or(false);
+                    l.check("stepping on to the next vertex reaches that vertex", "", ok_n, case, || format!("l={:e}: index {} -> {:?}, vertex {:?} at {}", x, s.index, s.nav_next, pn, ln));
+                }
+            }
             if !is_2d && s.index + 1 < n && norm(&sub(&v[s.index + 1], &v[s.index])) > 0.0 {
                 // in 3D there is no vertex rule: the direction is that of the edge the station names
                 let ed = unit(&sub(&v[s.index + 1], &v[s.index]));
